@@ -175,3 +175,8 @@ type abiIns interface {
 }
 
 var newAbiIns = func(ev dig.Event) (abiIns, bool) { return nil, false }
+
+// abiInsRows is the optional extension of abiIns that also returns the rows handed to CopyFrom.
+type abiInsRows interface {
+	insertRows(data []byte) (rows [][]any, err error, panicked string)
+}
